@@ -56,4 +56,10 @@ def frameOfDicts (null : α) (ds : List (List (String × α))) : Option (List St
 def append (null : α) (fields : List String) (rows : List (List α)) (d : List (String × α)) : List (List α) :=
   rows ++ [extract null fields d]
 
+/-- The views of a row the property names: `as_map`, `as_dict`, `values`, `keys()`, `as_json`
+(for `as_json`: the object it serialises). -/
+inductive View where
+  | asMap | asDict | values | keys | asJson
+  deriving DecidableEq, Repr
+
 end DictRow
